@@ -398,6 +398,9 @@ func (c *cfgT) body(prop string) {
 				if op == "L" {
 					vs.Sleep(lateStart - vs.Clock())
 				}
+				if op == "M" { // a query submitted in the middle of a stall
+					vs.Sleep(lateStart/2 - vs.Clock())
+				}
 				ctx := context.WithValue(ctxs[i], labelKey{}, label)
 				r := result{label: label, op: op, start: vs.Clock()}
 				switch op {
@@ -769,6 +772,7 @@ func connScenarios() []*cfgT {
 		{name: "v2-2x2-free2-coalesce-cancel", props: "C01 C06", proto: 2, callers: [][]string{q(2), q(2)}, freeIDs: 2, canceller: 0, coalesce: true, fates: rln, t: [2]int{2, 4}},
 		{name: "v2-1+1-free1-coalesce-cancel-deep", props: "C01 C06", proto: 2, callers: [][]string{q(1), q(1)}, freeIDs: 1, canceller: 0, coalesce: true, fates: []string{"reply", "late"}, t: [2]int{4, 6}},
 		{name: "v4-stalled-body-late-caller", props: "C01 C06", proto: 4, callers: [][]string{q(1), {"L"}}, canceller: -1, fates: []string{"reply", "stall", "late"}, t: [2]int{2, 3}},
+		{name: "v4-stalled-body-write-error", props: "C06", proto: 4, callers: [][]string{q(1), {"M"}}, canceller: -1, writeFault: "some", fates: []string{"reply", "stall"}, t: [2]int{2, 3}},
 		{name: "v2-stalled-body-late-caller-free2", props: "C01 C06", proto: 2, callers: [][]string{q(2), {"L"}}, freeIDs: 2, canceller: -1, fates: []string{"reply", "stall"}, t: [2]int{2, 3}},
 		{name: "v2-3x2-free1-late", props: "C01", proto: 2, callers: [][]string{q(2), q(2), q(2)}, freeIDs: 1, canceller: -1, fates: rln, t: [2]int{2, 4}},
 		// C06
